@@ -3,7 +3,8 @@
    inhabit it, and the computable determinism analysis (FIRST sets, wf_ty, supported).
    coq/gen/Schemas.v (translated from apdu.py / basetypes.py on every run) defines one [ty] per class.
    No proofs here (CodecFacts.v). *)
-From Bac Require Export Base Tag.
+From Bac Require Import Base.
+From Bac Require Import Tag.
 Open Scope N_scope.
 
 (* element kinds of sequenceElements / choiceElements *)
